@@ -4,13 +4,19 @@ boundary domains (BE), prints (value, Enc(value), all alternative encodings) and
 and checks its own statements (Len(Enc(p)) = SizeFormula(p), Dec(Enc(p)) = p, fault outputs are outside the image of Enc).
 harness/cmd/codec runs every vector through packets.Reader / Pack / TotalBytes / Message.TotalBytes (TV direction: the
 real encoder's bytes must be a member of the specification's encodings of the value)."""
-import concurrent.futures, json
+import atexit, concurrent.futures, json, os
 import vlib, codec_lib, topicstr_lib
 
 LEVEL = "exploration"
 
 
 def replay(ctx):
+    # a replay re-runs one stored vector; it is not an evidence-producing run: keep the evidence of the last full run
+    evp = os.path.join(vlib.EVID, ctx.pid + ".json")
+    if os.path.exists(evp):
+        with open(evp) as fh:
+            prev = fh.read()
+        atexit.register(lambda: open(evp, "w").write(prev))
     with open(ctx.replay) as fh:
         obj = json.load(fh)
     vec = obj.get("vector")
@@ -23,12 +29,13 @@ def replay(ctx):
             raise vlib.MachineryError("replay: Codec.tla now says ok=%s for the stored %s vector" % (d.get("ok"), vec["kind"]))
     summary, divs = codec_lib.run_raw(ctx, [vec])
     ctx.cov["evaluations"] = summary["n"]
-    ctx.cov["distinct_nontrivial"] = max(2, summary["nontrivial"])   # one stored vector, re-run
+    ctx.cov["distinct_nontrivial"] = summary["nontrivial"]
     ctx.cov["rule"] = "replay of one stored vector"
     ctx.sample(vec)
     for d in divs:
         if d["signature"] == obj.get("signature"):
-            ctx.violation(d["what"], {"signature": d["signature"], "kind": "codec-vector", "vector": vec, "extra": d.get("extra")})
+            name = os.path.basename(ctx.replay)[len(ctx.pid) + 1:-len(".json")] if os.path.basename(ctx.replay).startswith(ctx.pid + "_") else None
+            ctx.violation(d["what"], dict(obj, what=d["what"]), name=name)
     vlib.log("[C06] replay: %d divergence(s), %d with the stored signature" % (
         len(divs), sum(1 for d in divs if d["signature"] == obj.get("signature"))))
 
@@ -68,7 +75,7 @@ def run(ctx):
             jobs[ex.submit(codec_lib.run_group, ctx, name, types, [3, 4, 5], D, S, propsel, ("all",), rich,
                            1700 if rich else 400)] = name
         alphabet = [97, 47, 43, 35, 36, 0, 0xC3]
-        n, m = (4, 2) if ctx.tier == "quick" else (5, 3)
+        n, m = (4, 2) if ctx.tier == "quick" else (6, 3)
         # (the same run checks inside TLC that Codec.tla's byte-level predicates agree with TopicStr.tla)
         # (strings up to 3 / 4: TLC pre-evaluates TopicStr!DumpAll, whose match table grows fast)
         jobs[ex.submit(codec_lib.run_validity, ctx, alphabet, n, m, 3 if ctx.tier == "quick" else 4)] = "validity"
@@ -92,7 +99,9 @@ def run(ctx):
         vlib.log("[C06] %-8s vectors=%d (valid %d, faulted %d) divergent vectors=%d signatures=%d tlc+driver=%.0fs" % (
             name, summary["n"], summary["valid"], summary["faults"], summary["divergences"], summary["signatures"],
             summary["tlc_wall_s"]))
-        for s in (summary["samples"] or [])[:1]:
+        sm = summary["samples"] or []
+        for s in [x for x in sm if x.get("kind") == "valid"][:1] + [x for x in sm if x.get("kind") == "fault"][:1] + [
+                x for x in sm if x.get("kind") == "validity"][:1]:
             ctx.sample(s, cap=8)
         for d in divs:
             cur = alldivs.get(d["signature"])
